@@ -175,8 +175,10 @@ for it in range(NCASES):
         ok = ok and gt.cores[0].shape == tuple(py.cores[0].shape) and gt.Us[0] is None
         ok2 = True
         tag = mode
+        # a normalised open-mask call divides by the total variance as well: the same 0/0 degeneracy as the scalar modes
+        den = oracle(pt.dense(), margs, cntarr(N))[1] if normalize else float("inf")
     tmax = max(tmax, dt)
-    if mode != "sobol_onehot" and mode != "sobol_raw" and den < 1e-20 * max(1.0, float(np.sum(pt.dense() ** 2))):
+    if mode != "sobol_raw" and den < 1e-20 * max(1.0, float(np.sum(pt.dense() ** 2))):
         ndeg += 1   # zero variance: Python returns nan/inf (0/0), the model's field division gives x/0 = 0
     elif ok and ok2: nok += 1
     else:
